@@ -168,3 +168,51 @@ pub fn run(ctx: &mut Ctx) {
         }
     }
 }
+
+/// c11c: the checked constructor `Event::custom(type, data)`: a type that contains a line break must be refused
+/// (it would end the `event:` field early or inject another field); an accepted event is encoded.
+pub fn case_ctor(ctx: &mut Ctx, type_hex: &str, data_hex: &str) {
+    let t = String::from_utf8(crate::gen::unhex(type_hex)).unwrap();
+    let d = String::from_utf8(crate::gen::unhex(data_hex)).unwrap();
+    let obs = guard(move || match Event::custom(t, d) {
+        Err(_) => "err".to_string(),
+        Ok(ev) => {
+            let mut buf = vec![0u8; 4096];
+            match ev.write_to(&mut buf) {
+                Ok(n) => format!("ok:{}", enc(&buf[..n])),
+                Err(_) => "ok:write-failed".to_string(),
+            }
+        }
+    });
+    ctx.emit("c11c", &[type_hex, data_hex], &obs);
+}
+
+pub fn run_ctor(ctx: &mut Ctx) {
+    let mut idx = 0u64;
+    let fixed = ["tick", "", "a b", "tick\n", "tick\r\n", "tick\r", "\r", "\n", "a\nb", "a\r\nb", "a\rb", "\ntick", "tick\rdata: injected",
+        "\u{e9}\n", "tick\u{2028}", "tick\u{85}", "x: y", "tick\n\n", "\r\n"];
+    for t in fixed {
+        for d in ["", "d", "l1\nl2"] {
+            idx += 1;
+            if ctx.mine(idx) { case_ctor(ctx, &hex(t.as_bytes()), &hex(d.as_bytes())); }
+        }
+    }
+    // every string of up to 4 (thorough: 5) symbols over a small alphabet that contains both line-break characters
+    let alpha = ["a", " ", "\r", "\n", ":", "\u{e9}"];
+    let maxlen = if ctx.thorough() { 5 } else { 4 };
+    let mut cur: Vec<usize> = vec![0];
+    loop {
+        idx += 1;
+        if ctx.mine(idx) {
+            let t: String = cur.iter().map(|&i| alpha[i]).collect();
+            case_ctor(ctx, &hex(t.as_bytes()), &hex(b"d"));
+        }
+        let mut pos = cur.len();
+        loop {
+            if pos == 0 { cur = vec![0; cur.len() + 1]; break; }
+            pos -= 1;
+            if cur[pos] + 1 < alpha.len() { cur[pos] += 1; for c in cur.iter_mut().skip(pos + 1) { *c = 0; } break; }
+        }
+        if cur.len() > maxlen { break; }
+    }
+}
